@@ -148,7 +148,7 @@ def main():
                      'kind_free_text': 'Coq 8.16.1 development: executable model (Model/), regenerated kernels (Gen/), proofs (Proofs/), '
                                        'property theorems (Props/), generated case shards (Run/)'}],
         'checks': [], 'not_applicable': [],
-        'notes': 'Six unguarded "fix:" commits in /repo (F2 624b02f, F1 155c61c, F4a 7524fb1, F8-truncation a19c1d0, F6 4bbd446, F5 2f0c7d8) and the '
+        'notes': 'Seven unguarded "fix:" commits in /repo (F2 624b02f, F1 155c61c, F4a 7524fb1, F8-truncation a19c1d0, F6 4bbd446, F5 2f0c7d8, F12 bddc635) and the '
                  'known findings F3, F4b, F8, F9, F10, F11 are recorded in known_findings.json; see DESIGN.md sections 7 and 11.',
     }
     for p in props:
